@@ -208,7 +208,7 @@ impl<'a, H: HashChain> InMemoryHssPublicKey<'a, H> {
     pub fn new(data: &'a [u8]) -> Option<Self> {
         let mut index = 0;
 
-        let level = u32::from_be_bytes(read_and_advance(data, 4, &mut index).try_into().unwrap());
+        let level = u32::from_be_bytes(read_and_advance(data, 4, &mut index)?.try_into().unwrap());
 
         let public_key = InMemoryLmsPublicKey::new(&data[index..])?;
 
